@@ -85,7 +85,8 @@ def run(ctx):
     common = dict(Envs={"e1", "e2", "e3"}, TaskIds={"k%d" % i for i in range(1, 17)}, BasicChoices=[{"a"}, {"a", "b"}],
                   DetChoices=[{"TPC"}, {"ITS"}, {"TPC", "ITS"}], Ops=OPS, DestroyFlags=[set(), {"force"}, {"keep"}, {"allow"}],
                   MaxCalls=6, MaxInFlight=2)
-    for h in lc.generate(ctx, common, nseq, pairs=False):
+    # (hook tasks at two weights: the ones the teardown leaves locked must not be killed)
+    for h in lc.generate(ctx, dict(common, HookChoices=[set(), {"h1", "h2"}]), nseq, pairs=False):
         add(h, "seq")
     for h in lc.generate(ctx, dict(common, MaxCalls=5), npar, pairs=True, max_pairs=2):
         add(h, "par")
